@@ -58,7 +58,7 @@ StepOk(ev) ==
 FpOk(ev) == FpOp(ev.op, ev.rc, ev.x, ev.y) = ev.r
 RcpOk(ev) == LET p == <<ev.d[1], ev.d[2]>> IN ev.r = ev.rfast /\ IsRcp(p, ev.r) /\ ev.r = Rcp(p)
 
-SweepOk(ev) == ev.mismatch = 0 /\ ev.notrcp = 0 /\ ev.divisors > 0
+SweepOk(ev) == ev.mismatch = <<0, 0, 0>> /\ ev.notrcp = <<0, 0, 0>> /\ ev.divisors # <<0, 0, 0>>      \* counts as 16-bit limbs (they exceed 2^31)
 EventOk(ev) == CASE ev.e = "step" -> StepOk(ev) [] ev.e = "fp" -> FpOk(ev) [] ev.e = "rcp" -> RcpOk(ev) [] ev.e = "sweep" -> SweepOk(ev) [] OTHER -> FALSE
 Init == l = 1
 Next == l <= Len(TraceLog) /\ EventOk(Ev) /\ l' = l + 1
